@@ -24,7 +24,19 @@ def q4_exact(nums, v):
     terms = [k] + [V * c * x ** (j + 1) for j, c in enumerate([c1, c2, c3, c4])] + [u * V * x ** 5 * R(x)]
     return sum(terms), sum(abs(t) for t in terms)
 
+HARNESS2 = None   # the release build of the harness, when given: odd-numbered lines run there
+
 def run_impl(harness, lines):
+    if HARNESS2 and len(lines) > 1:
+        a = _run_impl(harness, lines[0::2])
+        b = _run_impl(HARNESS2, lines[1::2])
+        res = [None] * len(lines)
+        res[0::2] = a
+        res[1::2] = b
+        return res
+    return _run_impl(harness, lines)
+
+def _run_impl(harness, lines):
     with tempfile.NamedTemporaryFile('w', suffix='.cases', delete=False) as f:
         f.write("\n".join(lines) + "\n"); path = f.name
     out = subprocess.run([harness, '--implonly', path], stdout=subprocess.PIPE, text=True, check=True).stdout
@@ -210,40 +222,51 @@ def c01(args, rng):
                 failures=failures[:20], samples=cases[:2],
                 rule="C01/Log: degrees 0..8, v from 1e-300 to 1e300 incl. tiny v and v within 50 ulps of 1; reference p(ln v) in 400-bit mpmath; tolerance 4(n+2)u*sum|c||ln v|^i + 4u|ln v|*sum i|c||ln v|^(i-1)")
 
+def replay_one(harness, raw):
+    """(judged?, reason or None) for one replay line under one build of the harness"""
+    line, _, tail = raw.partition(' # ')
+    d = dict(t.split('=', 1) for t in line.split()[1:] if '=' in t)
+    cmd, T = line.split()[0], d.get('T', '')
+    if cmd == 'eval' and T == 'q4' and 'x' in d:
+        o = _run_impl(harness, [line])[0]
+        return True, ('panic for v>0' if o.get('impl') == 'PANIC' else judge_c10([fh(t) for t in d['p'].split(',')], fh(d['x']), fh(o['impl']))[1])
+    if cmd == 'eval' and T.startswith('l') and 'x' in d:
+        o = _run_impl(harness, [line])[0]
+        return True, ('panic for v>0' if o.get('impl') == 'PANIC' else judge_c01([fh(t) for t in d['p'].split(',')], fh(d['x']), fh(o['impl']))[1])
+    if cmd == 'integral' and T.startswith('l') and tail:
+        ab = dict(t.split('=', 1) for t in tail.split() if '=' in t)
+        kx, ky = [fh(t) for t in d['k'].split(',')]
+        fails, _, _ = c09_run([(int(T[1:]), [fh(t) for t in d['p'].split(',')], kx, ky, fh(ab['a']), fh(ab['b']), line)], harness)
+        return True, (fails[0]['shrunk_response'] if fails else None)
+    return False, None
+
 def replay(args):
-    """re-judge the oracle-found lines of a replay file against the current implementation"""
+    """re-judge the oracle-found lines of a replay file against the current implementation, in both build profiles"""
+    global HARNESS2
+    builds = [("dev", args.harness)] + ([("release", HARNESS2)] if HARNESS2 else [])
+    HARNESS2 = None
     bad = 0
     for raw in open(args.replay):
         raw = raw.strip()
         if not raw or raw.startswith('#'):
             continue
-        line, _, tail = raw.partition(' # ')
-        d = dict(t.split('=', 1) for t in line.split()[1:] if '=' in t)
-        cmd, T = line.split()[0], d.get('T', '')
-        why = None
-        if cmd == 'eval' and T == 'q4' and 'x' in d:
-            o = run_impl(args.harness, [line])[0]
-            why = 'panic for v>0' if o.get('impl') == 'PANIC' else judge_c10([fh(t) for t in d['p'].split(',')], fh(d['x']), fh(o['impl']))[1]
-        elif cmd == 'eval' and T.startswith('l') and 'x' in d:
-            o = run_impl(args.harness, [line])[0]
-            why = 'panic for v>0' if o.get('impl') == 'PANIC' else judge_c01([fh(t) for t in d['p'].split(',')], fh(d['x']), fh(o['impl']))[1]
-        elif cmd == 'integral' and T.startswith('l') and tail:
-            ab = dict(t.split('=', 1) for t in tail.split() if '=' in t)
-            kx, ky = [fh(t) for t in d['k'].split(',')]
-            fails, _, _ = c09_run([(int(T[1:]), [fh(t) for t in d['p'].split(',')], kx, ky, fh(ab['a']), fh(ab['b']), line)], args.harness)
-            why = fails[0]['shrunk_response'] if fails else None
-        else:
-            continue
-        print(('ORACLE-FAIL ' + why if why else 'oracle-ok') + ' :: ' + raw[:200])
-        bad += 1 if why else 0
+        for prof, h in builds:
+            judged, why = replay_one(h, raw)
+            if not judged:
+                break
+            print((f'ORACLE-FAIL [{prof}] ' + why if why else f'oracle-ok [{prof}]') + ' :: ' + raw[:200])
+            bad += 1 if why else 0
     sys.exit(1 if bad else 0)
 
 def main():
     ap = argparse.ArgumentParser()
     ap.add_argument('--tier', default='quick'); ap.add_argument('--seed', type=int, default=1)
     ap.add_argument('--harness', required=True); ap.add_argument('--out', required=True); ap.add_argument('--prop', required=True)
-    ap.add_argument('--replay')
+    ap.add_argument('--replay'); ap.add_argument('--harness2')
     args = ap.parse_args()
+    global HARNESS2
+    if args.harness2 and os.path.exists(args.harness2):
+        HARNESS2 = args.harness2
     if args.replay:
         return replay(args)
     rng = random.Random(args.seed * 7919 + sum(map(ord, args.prop)))
